@@ -671,7 +671,58 @@ def r10_derive_counts_every_field(ctx):
         ctx.ok('field-loop turns of the MessageBody derive inspected: %d' % n, f.where())
 
 
+CONTENT_WRITERS = {   # who replaces the body of an existing message (through &mut self)
+    'des::net::message::Message::set_body': 'takes a ready-made Body',
+    'des::net::message::Message::set_content': 'boxes the value and installs the clonable vtable',
+    'des::net::message::Message::set_content_non_clonable': 'boxes the value, vtable without clone',
+    'des::net::message::Message::set_content_non_debugable': 'boxes the value, vtable without debug',
+}
+
+
+def r11_body_presence(ctx):
+    """(a) `can_cast::<T>()` is true only for a message that HAS a body of type T — a header-only message casts to nothing (the probe-then-
+    cast idiom relies on it); (b) the body of an existing message is replaced by the setters alone: any other writer of `Message.content`
+    (a hand-written `clone_from`, a merge, ..) is a place where a stale body can survive or a body can get lost"""
+    ctx.set_rule('C16.R11')
+    P = ctx.P
+    f = ctx.anchor('des::net::message::Message::can_cast')
+    if f:
+        ok = True
+        forms = []
+        for _, t in ret_trees(f):
+            t = peel(t)
+            forms.append(show(t)[:120])
+            good = False
+            if t[0] == 'call' and str(t[1]).endswith('Option::map_or') and len(t[2]) == 3:
+                good = peel(t[2][1]) == ('int', 0)
+            elif t[0] == 'call' and str(t[1]).endswith('Option::is_some_and'):
+                good = True
+            elif t[0] == 'call' and str(t[1]).endswith('Option::unwrap_or') and len(t[2]) == 2:
+                good = peel(t[2][1]) == ('int', 0)
+            elif t[0] == 'call' and str(t[1]).endswith('Body::is'):
+                good = any(x[0] == 'as' and x[2] == 'Some' for x in walk(t))      # `Body::is(payload of content)`: reached only under `is Some`
+            elif t == ('int', 0):
+                good = True
+            ok = ok and good
+        ctx.check(ok and bool(forms), 'can-cast-needs-a-body', 'Message::can_cast::<T>() is false for a message without a body', f.where(), forms[:3])
+    n = 0
+    for g in P.fn_list:
+        if g.kind == 'promoted' or not g.key.startswith(('des::net::message::', '<des::net::message::')):
+            continue
+        sites = [g.where(b) for (b, i, st) in g.writes_to_field('content') if str(st['p']['pr'][-1].get('adt', '') if st['p']['pr'] else '').endswith('message::Message') or True]
+        if not sites:
+            continue
+        # only writes through a reference to an existing message count (constructors build a new value)
+        if not any(str(g.local_ty(k)).startswith('&mut') and 'Message' in str(g.local_ty(k)) for k in range(1, g.argc + 1)):
+            continue
+        n += 1
+        ctx.check((g.root or g.key) in CONTENT_WRITERS, 'content-writer:%s' % (g.root or g.key), 'the body of an existing message is replaced by the setters alone', sites[0],
+                  CONTENT_WRITERS.get(g.root or g.key))
+    ctx.floor('functions replacing the body of an existing message', n, 3)
+
+
 def run(ctx):
+    r11_body_presence(ctx)
     r9_parts_reassembled(ctx)
     r10_derive_counts_every_field(ctx)
     # (R8) the declared length is what channels charge for, undiminished: transmission time = length*8/bitrate from the unscaled
